@@ -115,10 +115,29 @@ fn gen_path(rng: &mut Rng, nattr: usize, curved: bool, c: Coords) -> (Vec<Cmd>, 
             }
             let a = gen_attrs(rng, nattr);
             if curved && (to - prev).length() >= 1.0 && rng.chance(3, 5) {
+                // mostly well-shaped curves (control points over the chord), sometimes arbitrary ones
+                let wild = rng.chance(1, 5);
+                let mut ctrl = |rng: &mut Rng, lo: f64, hi: f64| -> Pt {
+                    if wild {
+                        gen_point(rng, c, None)
+                    } else {
+                        let u = rng.uniform(lo, hi) as f32;
+                        let h = rng.uniform(-0.6, 0.6) as f32;
+                        let d = to - prev;
+                        let q = point(prev.x + d.x * u - d.y * h, prev.y + d.y * u + d.x * h);
+                        if c == Coords::Lattice {
+                            point((q.x * 4.0).round() / 4.0, (q.y * 4.0).round() / 4.0)
+                        } else {
+                            q
+                        }
+                    }
+                };
                 if rng.chance(1, 2) {
-                    cmds.push(Cmd::Q(gen_point(rng, c, None), to, a));
+                    cmds.push(Cmd::Q(ctrl(rng, 0.25, 0.75), to, a));
                 } else {
-                    cmds.push(Cmd::C(gen_point(rng, c, None), gen_point(rng, c, None), to, a));
+                    let c1 = ctrl(rng, 0.1, 0.5);
+                    let c2 = ctrl(rng, 0.5, 0.9);
+                    cmds.push(Cmd::C(c1, c2, to, a));
                 }
             } else {
                 cmds.push(Cmd::L(to, a));
@@ -496,7 +515,7 @@ fn has_degenerate_curve(cmds: &[Cmd], tol: f32) -> bool {
             let v = (c.x as f64 - from.x as f64, c.y as f64 - from.y as f64);
             let u = (v.0 * b.0 + v.1 * b.1) / l2;
             let perp = (v.0 * b.1 - v.1 * b.0).abs() / l2.sqrt();
-            perp <= 2.0 * tol as f64 && (u < -0.01 || u > 1.01)
+            perp <= 8.0 * tol as f64 && (u < -0.01 || u > 1.01)
         })
     };
     for c in cmds {
@@ -569,10 +588,19 @@ impl<'a> SamplerRun<'a> {
         orc.check((len as f64 - lref).abs() <= round, "measure.length/equals-flattening", "generic", || {
             format!("length {} flattening {} allowance {}", len, lref, round)
         });
-        // approximate_length: same sum for lines; closed form / own subdivision for curves
-        orc.check((len as f64 - alen as f64).abs() <= round + deficit + if self.curved { 1e-3 * lref } else { 0.0 }, "length.approximate_length/equals-measured", "generic", || {
-            format!("length {} approximate_length {} allowance {}", len, alen, round + deficit)
-        });
+        // approximate_length: the same sum for polylines.  For curves it is the closed-form /
+        // quadratic-approximation length of the CURVE, while the measured length is that of the
+        // inscribed polyline: never longer (chords), and arbitrarily shorter only where a turn
+        // narrower than the tolerance is flattened away — so only the upper side is demanded.
+        if self.curved {
+            orc.check(len as f64 <= alen as f64 + round + deficit + 1e-3 * lref, "length.approximate_length/not-shorter-than-measured", "generic", || {
+                format!("length {} approximate_length {} allowance {}", len, alen, round + deficit + 1e-3 * lref)
+            });
+        } else {
+            orc.check((len as f64 - alen as f64).abs() <= round, "length.approximate_length/equals-measured", "generic", || {
+                format!("length {} approximate_length {} allowance {}", len, alen, round)
+            });
+        }
 
         // --- queries on ONE sampler
         for q in queries {
@@ -752,7 +780,9 @@ impl<'a> SamplerRun<'a> {
                         (0..self.nattr)
                             .map(|i| {
                                 let span = (e.fa[i] - e.ta[i]).abs();
-                                ((attrs[i] as f64 - (e.fa[i] * (1.0 - t) + e.ta[i] * t)).abs() - 0.25 * span).max(0.0)
+                                // band: a quarter of the span (parameter non-uniformity within a flattening
+                                // step) + the parameter uncertainty of a position known to f32 precision
+                                ((attrs[i] as f64 - (e.fa[i] * (1.0 - t) + e.ta[i] * t)).abs() - 0.25 * span - span * (round / l).min(1.0)).max(0.0)
                             })
                             .fold(0.0, f64::max)
                     })
